@@ -29,6 +29,7 @@ def run(prog: Program, rep: Report, tier: str) -> None:
 def _run(prog: Program, rep: Report, tier: str) -> None:
     rep.rule('C02-D1', 'budget-must-warn: every kmax-bounded loop of fggs/sum_product.py reaches warnings.warn on all paths from its budget exit (guards on the counter evaluated under the exit fact)')
     rep.rule('C02-D2', "linear-raises: in `linear`, with the count of in-component rhs edges abstracted to {0,1,2,3}, count>=2 always reaches `raise` before any add_single and count<=1 never raises; per-SCC method rewrites are constants in {'one-step','linear'} guarded by the in-component edge count; SumProduct.forward's dispatch is exhaustive with a raising fall-through; tol/kmax are forwarded to the iterative solvers")
+    rep.rule('C02-D4', "rule-contributions-accumulate: inside a loop over a nonterminal's rules (F, J, J_precompute_products, J_log, linear) every store into a MultiTensor under construction is an accumulation (add_single, or X[k] = ... X[k] ...): the block of a nonterminal is the semiring sum over all its rules, and of a pair (X, Y) over all rules and edges")
     rep.rule('C02-D3', 'star-at-radius (abstract interpretation, shared with C08-L6): star(one) is one in idempotent semirings and top otherwise')
     rep.not_decided += ['convergence to the least fixed point', 'error -> 0 as tol -> 0', "correctness of Newton's iteration and of multi_solve"]
     rep.trusted += ['warnings.warn emits a warning when called', 'range(n) yields 0..n-1']
@@ -74,9 +75,48 @@ def _run(prog: Program, rep: Report, tier: str) -> None:
             tol_arg = c.args[1] if len(c.args) > 1 else next((k.value for k in c.keywords if k.arg == 'tol'), None)
             ok = isinstance(tol_arg, ast.Name) and tol_arg.id == 'tol'
             rep.ob('C02-D2 stop-test', g.fq(), norm(c), g.loc(c), ok, 'the caller\'s tol is used unmodified' if ok else f"tolerance argument is `{norm(tol_arg) if tol_arg is not None else None}`")
+    # ---- D4  contributions of several rules (and of several edges with one label) to one block are summed
+    check_rule_contributions(rep, prog)
     # ---- D3
     from ..absint import semiring_laws
     semiring_laws.check_star_at_one(prog, rep, 'C02-D3 star-at-radius')
+
+
+def check_rule_contributions(rep: Report, prog: Program) -> None:
+    rule = 'C02-D4 rule-contributions-accumulate'
+    n_sites = 0
+    for f in prog.module(SP).functions.values():
+        if f.is_lambda or prog.is_new_helper(f):
+            continue
+        from ..rules.loopstate import multitensor_names
+        multis = multitensor_names(f)
+        if not multis:
+            continue
+        for loop in [n for n in own_nodes(f.node) if isinstance(n, ast.For)]:
+            it = norm(loop.iter)
+            if not (isinstance(loop.iter, ast.Call) and callee_last(loop.iter) in ('rules', 'all_rules') or 'rule' in {x.id for x in ast.walk(loop.target) if isinstance(x, ast.Name)}):
+                continue
+            for st in ast.walk(loop):
+                if isinstance(st, ast.Call) and isinstance(st.func, ast.Attribute) and st.func.attr == 'add_single' \
+                        and isinstance(st.func.value, ast.Name) and st.func.value.id in multis:
+                    n_sites += 1
+                    rep.ob(rule, f.fq(), norm(st)[:100], f.loc(st), True, 'accumulated with add_single')
+                elif isinstance(st, (ast.Assign, ast.AugAssign)):
+                    tgts = st.targets if isinstance(st, ast.Assign) else [st.target]
+                    for t in tgts:
+                        if isinstance(t, ast.Subscript) and isinstance(t.value, ast.Name) and t.value.id in multis:
+                            n_sites += 1
+                            key = norm(t)
+                            reads_old = isinstance(st, ast.AugAssign) or any(isinstance(x, ast.Subscript) and norm(x) == key and isinstance(x.ctx, ast.Load) for x in ast.walk(st.value))
+                            rep.ob(rule, f.fq(), norm(st)[:100], f.loc(st), reads_old,
+                                   'the stored value reads the old block' if reads_old else
+                                   f"`{key}` is overwritten inside the loop over `{it}`: when two rules (or two edges with one label) contribute to this block only the last contribution survives")
+    rep.floor(rule, n_sites, 5)
+    from ..rules.loopstate import check_jacobi_sweep
+    nj = 0
+    for name in ('F', 'J', 'J_log'):
+        nj += check_jacobi_sweep(rep, 'C02-D4 jacobi-sweep', prog.func(SP, name))
+    rep.floor('C02-D4 jacobi-sweep', nj, 3)
 
 
 def method_selector(fwd) -> str:
